@@ -147,6 +147,16 @@ def drive(world, url='ws://example.com/', ws_kwargs=None, connect_kwargs=None,
                 for _ in range(8):
                     c.step()
             run.companion = c
+            if world.recv_hook is None:
+                # ... and while the observed connection waits in recv() - between two reads of one message, where
+                # no event marks the spot (what another thread does while this one is blocked)
+                budget = [300]
+
+                def _between_reads(_sock, _c=c, _b=budget):
+                    if _b[0] > 0:
+                        _b[0] -= 1
+                        _c.step()
+                world.recv_hook = _between_reads
         if pre_iter is not None:
             # between connect() returning the iterator and its first next()
             pre_iter(run)
